@@ -22,6 +22,7 @@ pub fn set_seed(seed: Option<u64>) {
     POISON.with(|p| p.set(seed.map(|s| crate::rng::derive(s, "alloc.poison", 0) | 0x0101_0101_0101_0101).unwrap_or(0)));
     CALLS.with(|c| c.set(0));
     if seed.is_some() {
+        crate::alloc_seam::reset_live();
         MONO_CALLS.with(|c| c.set(0));
         CLOCK_JUMPS.with(|c| c.set(0));
         POISONED_BYTES.with(|c| c.set(0));
